@@ -41,13 +41,22 @@ type c15member struct {
 	args       []string
 	entered    int
 	returned   int
+	// the error a failing member answers with (default: an opaque error)
+	failErr error
+}
+
+func (m *c15member) failure() error {
+	if m.failErr != nil {
+		return m.failErr
+	}
+	return c15errA
 }
 
 func (m *c15member) err() error {
 	if m.ok {
 		return nil
 	}
-	return c15errA
+	return m.failure()
 }
 
 func (m *c15member) note(ctx context.Context, call string, args ...string) {
@@ -63,7 +72,7 @@ func (m *c15member) note(ctx context.Context, call string, args ...string) {
 
 func (m *c15member) reader(ctx context.Context) (ociregistry.BlobReader, error) {
 	if !m.ok {
-		return nil, c15errA
+		return nil, m.failure()
 	}
 	r := &c15reader{Reader: bytes.NewReader([]byte("data")), desc: ociregistry.Descriptor{MediaType: "m", Digest: m.digest, Size: 4}, ctx: ctx}
 	m.readers = append(m.readers, r)
@@ -73,7 +82,7 @@ func (m *c15member) reader(ctx context.Context) (ociregistry.BlobReader, error) 
 func (m *c15member) registry() ociregistry.Interface {
 	desc := func() (ociregistry.Descriptor, error) {
 		if !m.ok {
-			return ociregistry.Descriptor{}, c15errA
+			return ociregistry.Descriptor{}, m.failure()
 		}
 		return ociregistry.Descriptor{MediaType: "m", Digest: m.digest, Size: 4}, nil
 	}
@@ -318,4 +327,64 @@ func VerifC15_MembersStayEqual() {
 
 func init() {
 	verifRegister("VerifC15_MembersStayEqual", VerifC15_MembersStayEqual)
+}
+
+// VerifC15_PushBlobScripted: PushBlob through the unifier over two scripted members
+// that independently already hold the blob or not (what a read through either of them
+// would see) and accept or refuse the push: the push is applied to both members, each
+// receives the complete content, and success is reported only if both succeeded -
+// whatever the members already hold (e.g. after an earlier push that failed on one side).
+func VerifC15_PushBlobScripted() {
+	content := []byte("blob")
+	desc := ociregistry.Descriptor{MediaType: "application/octet-stream", Digest: "sha256:b10b", Size: int64(len(content))}
+	type side struct {
+		has, accepts bool
+		pushes       int
+		got          []byte
+	}
+	mk := func(s *side) ociregistry.Interface {
+		resolve := func() (ociregistry.Descriptor, error) {
+			if s.has {
+				return desc, nil
+			}
+			return ociregistry.Descriptor{}, ociregistry.ErrBlobUnknown
+		}
+		return &ociregistry.Funcs{
+			ResolveBlob_: func(ctx context.Context, repo string, d ociregistry.Digest) (ociregistry.Descriptor, error) {
+				return resolve()
+			},
+			GetBlob_: func(ctx context.Context, repo string, d ociregistry.Digest) (ociregistry.BlobReader, error) {
+				if _, err := resolve(); err != nil {
+					return nil, err
+				}
+				return &c15reader{Reader: bytes.NewReader(content), desc: desc, ctx: ctx}, nil
+			},
+			PushBlob_: func(ctx context.Context, repo string, d ociregistry.Descriptor, r io.Reader) (ociregistry.Descriptor, error) {
+				s.pushes++
+				data, _ := io.ReadAll(r)
+				s.got = data
+				if !s.accepts {
+					return ociregistry.Descriptor{}, c15errA
+				}
+				s.has = true
+				return d, nil
+			},
+		}
+	}
+	s0 := &side{has: verifBool("member0has"), accepts: verifBool("member0accepts")}
+	s1 := &side{has: verifBool("member1has"), accepts: verifBool("member1accepts")}
+	u := New(mk(s0), mk(s1), &Options{ReadPolicy: ReadPolicy(verifChoose("policy", 2))})
+	_, err := u.PushBlob(context.Background(), "repo", desc, bytes.NewReader(content))
+	verifAssert(s0.pushes == 1 && s1.pushes == 1, "push-applied-to-both-members-once")
+	verifAssert(bytes.Equal(s0.got, content) && bytes.Equal(s1.got, content), "both-members-receive-the-complete-content")
+	verifAssert((err == nil) == (s0.accepts && s1.accepts), "write-succeeds-only-if-both-succeed")
+	if err == nil {
+		verifAssert(s0.has && s1.has, "after-a-successful-push-both-members-hold-the-blob")
+	}
+	verifAssert(verifQuiesce() == 0, "no-goroutine-left-behind")
+	verifCover("end")
+}
+
+func init() {
+	verifRegister("VerifC15_PushBlobScripted", VerifC15_PushBlobScripted)
 }
